@@ -20,7 +20,7 @@ func c06Fix() *Fix {
 	f.Blob("dang", "application/octet-stream", []byte("dangling blob"))
 	f.Image("Au", mtImg, "e", nil, "I2", "application/x.test", nil)                 // referrer of an untagged image
 	f.Image("Apr", mtImg, "e", nil, f.Items["dang"].Dig, "application/x.test", nil) // referrer whose subject is a dangling blob that is pruned
-	f.Items["Apr"].Subject = ""                                                      // the subject is not a manifest item
+	f.Items["Apr"].Subject = ""                                                     // the subject is not a manifest item
 	return f
 }
 
